@@ -165,6 +165,29 @@ pub fn run(fam: &str, t: &mut Toks) -> Option<R<String>> {
                 Err(e) => format!("err {e}"),
             })
         })()),
+        "addr_raw" => Some((|| {
+            // the address helpers of essential_hash on arbitrary lists of content addresses: `<via slice> <via iterator>`
+            let kind = t.tok()?.to_string();
+            let addrs: Vec<ContentAddress> = t.list(|t| Ok(ContentAddress(t.bytes32()?)))?;
+            let r = match kind.as_str() {
+                "contract" => {
+                    let salt = t.bytes32()?;
+                    let mut a = addrs.clone();
+                    let x = essential_hash::contract_addr::from_predicate_addrs_slice(&mut a, &salt);
+                    let y = essential_hash::contract_addr::from_predicate_addrs(addrs.iter().cloned(), &salt);
+                    format!("{} {}", hex_of(&x.0), hex_of(&y.0))
+                }
+                "set" => {
+                    let mut a = addrs.clone();
+                    let x = essential_hash::solution_set_addr::from_solution_addrs_slice(&mut a);
+                    let y = essential_hash::solution_set_addr::from_solution_addrs(addrs.iter().cloned());
+                    format!("{} {}", hex_of(&x.0), hex_of(&y.0))
+                }
+                _ => return Err("kind".into()),
+            };
+            t.done()?;
+            Ok(r)
+        })()),
         "conv" => Some((|| {
             // the conversion helpers of essential_types::convert
             use essential_types::convert as cv;
